@@ -200,6 +200,8 @@ build_corpus(struct corpus *c, int max, vh_rng *rg, int small)
     }
     make_corpus_frame(&c[n++], RT_META, 0, 0, 1, 0, 0, rg);
     make_corpus_frame(&c[n++], RT_META, 0, 0, 2, 0, 0, rg);
+    /* one longer payload: 32 sixteen-bit words (a round number of words for whatever the checksum routine unrolls) */
+    make_corpus_frame(&c[n++], RT_WRITE_REQ, 1, 32, 0, (uint16_t)vh_rand(rg), (uint32_t)vh_rand(rg), rg);
     /* frames whose checksum fields hold remarkable values: payload checksum 0x0000 (all-zero payload; payload
      * that ends in its own checksum), payload checksum 0xffff, header checksum 0x0000 and 0xffff, header
      * checksum equal to the payload checksum */
@@ -272,6 +274,12 @@ mutate_frame(const struct corpus *c, vh_rng *rg, unsigned part, unsigned nparts,
     unsigned char m[140];
     const size_t nbits = c->n * 8;
     uint64_t k = 0;
+    /* the frame as it is: the receiver's verdict on the undamaged frame must be the reference's too (a receiver
+     * that rejects everything classifies every damaged frame "correctly") */
+    if (part == 0) {
+        VH_SUB(1, 0);
+        judge(c->raw, c->n, 1, 0, "undamaged", c->name);
+    }
     /* single-bit flips, everywhere */
     for (size_t b = 0; b < nbits; b++, k++) {
         if (k % nparts != part)
